@@ -201,6 +201,57 @@ def rule_r4(facts, col):
 
 
 
+TAG_REMOVERS = {"dedup", "dedup_by", "dedup_by_key", "retain", "retain_mut", "truncate", "drain", "clear", "pop", "remove", "swap_remove",
+                "split_off", "sort_unstable", "sort_unstable_by", "sort_unstable_by_key"}
+
+
+def rule_r5(facts, col, rule_id="C12.R5"):
+    """forwarded tags are forwarded, all of them: where work() hands the tag list it received from read_buf() to produce(),
+    nothing in between removes elements from that list (`dedup`, `retain`, `truncate`, `drain`, ..).  Re-basing positions in
+    place is fine; dropping 'duplicates' is not - two equal tags on neighbouring samples are two tags, and after a decimating
+    block divided their positions they compare equal."""
+    n = 0
+    for body in facts.impl_bodies(BLOCK_TRAIT, "work"):
+        if body.from_derive:
+            continue
+        # locals holding the tag Vec of a read_buf() result
+        tagvecs = set()
+        for l, loc in enumerate(body.locals):
+            if loc["ty"].replace(" ", "") in ("std::vec::Vec<stream::Tag>",):
+                for x in walk(body.local_expr(l)):
+                    if x.k == "call" and x.q == "stream::ReadStream::read_buf":
+                        tagvecs.add(l)
+                        break
+        if not tagvecs:
+            continue
+        forwarded = False
+        for bb, t in body.calls_to(effects.PRODUCE):
+            if len(t["args"]) >= 3:
+                for x in walk(body.operand_expr(t["args"][2])):
+                    if x.k in ("local", "multi") and x.local in tagvecs:
+                        forwarded = True
+                te = body.operand_expr(t["args"][2])
+                if any(x.k == "call" and x.q == "stream::ReadStream::read_buf" for x in walk(te)):
+                    forwarded = True
+        if not forwarded:
+            continue
+        n += 1
+        key = "%s:tags-kept" % body.q
+        hit = None
+        for bb, t in body.calls():
+            if t["f"].get("name") in TAG_REMOVERS and t["args"] and (t.get("argtys") or [""])[0].replace(" ", "").startswith("&mutstd::vec::Vec<stream::Tag>"):
+                if any(x.k == "call" and x.q == "stream::ReadStream::read_buf" for x in walk(body.operand_expr(t["args"][0]))):
+                    hit = (bb, t["f"].get("name"))
+        if hit:
+            col.bad(rule_id, key, body.where(hit[0]),
+                    "the tag list received with the read window is passed through `%s()` before it is handed to produce(): tags are "
+                    "removed on the way (equal tags on neighbouring samples are still separate tags) - each input tag must come out exactly "
+                    "once" % hit[1], {})
+        else:
+            col.ok(rule_id, key, body.where(), "no element-removing call on the forwarded tag list")
+    return n
+
+
 # a body that raises an alarm as compiled is judged again on its work view (effects.view_fallback)
 rule_r3 = effects.view_fallback(rule_r3)
 rule_r4 = effects.view_fallback(rule_r4)
@@ -221,6 +272,8 @@ def run(ctx):
     ctx.floor("C12.S10", 3, "same floor as C02.R12")
     for rid, n in (("C12.S5", 1), ("C12.S6", 2), ("C12.S7", 1), ("C12.S8", 1), ("C12.S9", 1)):
         ctx.floor(rid, n, "same floor as C02.R%s" % rid[-1])
+    rule_r5(facts, ctx)
+    ctx.floor("C12.R5", 3, "hand-written blocks that forward the tag list of their read window (FirFilter, Delay, Skip, ..)")
     c19.rule_work(fam, ctx, only={"C12.R2"})
     c19.rule_work(facts, ctx, only={"C12.R2"})
     if ctx.tier == "thorough" and ctx.override is None:
